@@ -21,6 +21,7 @@ func init() {
 	vrt.Register("C06_shape", Shape)
 	vrt.Register("C06_short_circuit", ShortCircuit)
 	vrt.Register("C06_end_to_end", EndToEnd)
+	vrt.Register("C06_string_chains", StringChains)
 }
 
 var binops = []string{"+", "-", "*", "/", "<", "<=", ">", ">=", "==", "!=", "&&", "||", "~="}
@@ -554,5 +555,46 @@ func EndToEnd() {
 			vrt.Assert(got == strconv.Itoa(want.i), "end to end: integer value equals the reference")
 		}
 	}
+	vrt.Cover("done")
+}
+
+// left-associative chains whose first operand is a string (the empty string
+// included): string + x is a string, so everything after it concatenates / compares as text
+func StringChains() {
+	s := vrt.Bytes(vrt.IntRange(0, 1))
+	n, m := vrt.Int(), vrt.Int()
+	t := vrt.Bool()
+	ctx := plush.NewContext()
+	ctx.Set("s", s)
+	ctx.Set("n", n)
+	ctx.Set("m", m)
+	ctx.Set("t", t)
+	e := htmlEsc(s)
+	var expr, want string
+	switch vrt.Choice(10) {
+	case 0:
+		expr, want = "s + n + m", e+strconv.Itoa(n)+strconv.Itoa(m)
+	case 1:
+		expr, want = "\"\" + n + m", strconv.Itoa(n)+strconv.Itoa(m)
+	case 2:
+		expr, want = "s + t + n", e+b2s(t)+strconv.Itoa(n)
+	case 3:
+		expr, want = "\"\" + 1.5 + 1.5", "1.51.5"
+	case 4:
+		expr, want = "\"\" + 7 == \"7\"", "true"
+	case 5:
+		expr, want = "s + n == s + n", "true"
+	case 6: // a non-empty string is truthy: "false" is a non-empty string
+		expr, want = "\"\" + false || false", "true"
+	case 7:
+		expr, want = "!(\"\" + false)", "false"
+	case 8:
+		expr, want = "s + (n + m)", e+strconv.Itoa(n+m)
+	default:
+		expr, want = "s + s + n", e+e+strconv.Itoa(n)
+	}
+	got, err := render(expr, ctx)
+	vrt.Assert(err == nil, "a chain starting with a string renders: "+expr)
+	vrt.Assert(got == want, "string + x concatenates the printed form of x, left-associatively: "+expr)
 	vrt.Cover("done")
 }
